@@ -472,6 +472,185 @@ def bfs_job(item, tier):
                          "depth": depth, "states": len(seen)}]}
 
 
+# ----------------------------------------------------------------------- bare Worker
+def worker_job(item, tier):
+    """BFS on one bare Worker through its *own* place_task / remove_task, without the
+    pool's admission test in front: every strategy is offered in every state, so
+    refusals (exceptions) of requests that do not fit are part of the alphabet.  "A
+    refused request changes nothing" is judged on every public observable, including
+    can_accomodate_strategy for every strategy."""
+    from .. import bootstrap  # noqa: F401
+
+    _k, wn, depth = item
+    out = []
+    stats = {"worker_refusals": 0, "worker_accepts": 0, "worker_batch_joins": 0}
+
+    def fresh():
+        w = World()
+        return w, w.worker(0, wn), {}
+
+    def observe(world, wk):
+        R = world.Resource
+        per = []
+        for n, i, _q in WORKERS[wn]:
+            x = R(n, i)
+            per.append((n, i, wk.resources.get_available_quantity(x),
+                        wk.resources.get_allocated_quantity(x)))
+        names = sorted(set(n for n, _i, _q in WORKERS[wn]))
+        for n in names:
+            x = R(n, "any")
+            per.append((n, "any", wk.resources.get_available_quantity(x),
+                        wk.resources.get_allocated_quantity(x)))
+        return (tuple(per), tuple(sorted(t.name for t in wk.get_placed_tasks())),
+                tuple(wk.can_accomodate_strategy(world.strats[s_])
+                      for s_ in sorted(STRATS)), wk.is_full())
+
+    def ref_fit(world, wk, ref, s_):
+        dem, bs, batch = STRATS[s_]
+        members = [t for t, s2 in ref.items() if s2 == s_]
+        if batch and members:
+            return len(members) < bs
+        ok = all(wk.resources.get_available_quantity(world.Resource(n, i)) >= q
+                 for (n, i), q in dem.items())
+        byname = {}
+        for (n, _i), q in dem.items():
+            byname[n] = byname.get(n, 0) + q
+        return ok and all(wk.resources.get_available_quantity(world.Resource(n, "any"))
+                          >= q for n, q in byname.items())
+
+    def apply(world, wk, ref, op, bad):
+        ET, US = world.ET, world.ET.Unit.US
+        before = observe(world, wk)
+        if op[0] == "wplace":
+            _k2, t, s_ = op
+            fit = ref_fit(world, wk, ref, s_)
+            exc = None
+            try:
+                wk.place_task(world.tasks[t], world.strats[s_])
+            except Exception as e:  # noqa: B902
+                exc = e
+            if exc is None:
+                if not fit:
+                    bad("worker.accepted_unfit", f"{op}: accepted although it does not "
+                                                 f"fit")
+                if STRATS[s_][2] and any(s2 == s_ for s2 in ref.values()):
+                    stats["worker_batch_joins"] += 1
+                ref[t] = s_
+                stats["worker_accepts"] += 1
+            else:
+                stats["worker_refusals"] += 1
+                if fit:
+                    bad("worker.refused_fit", f"{op}: raised {type(exc).__name__} "
+                                              f"although it fits")
+                if observe(world, wk) != before:
+                    bad("refusal.changed_state",
+                        f"{op}: refused ({type(exc).__name__}) but a public observable "
+                        f"of the Worker changed")
+        else:
+            _k2, t = op
+            try:
+                wk.remove_task(ET(0, US), world.tasks[t])
+            except Exception as e:  # noqa: B902
+                bad("remove.raises", f"{op}: raised {type(e).__name__} for a resident "
+                                     f"task")
+            ref.pop(t, None)
+        # ledger and predicates
+        used = {}
+        seen_b = set()
+        for t, s_ in ref.items():
+            dem, _bs, batch = STRATS[s_]
+            if batch:
+                if s_ in seen_b:
+                    continue
+                seen_b.add(s_)
+            for (n, _i), q in dem.items():
+                used[n] = used.get(n, 0) + q
+        tot = total_by_name(wn)
+        o = observe(world, wk)
+        for (n, i, av, al) in o[0]:
+            if i == "any":
+                if av != tot[n] - used.get(n, 0):
+                    bad("ledger.available", f"{wn} {n}: available {av}, reference "
+                                            f"{tot[n]} - {used.get(n, 0)}")
+                if av + al != tot[n]:
+                    bad("ledger.sum", f"{wn} {n}: {av} + {al} != {tot[n]}")
+        if o[1] != tuple(sorted(ref)):
+            bad("placed.mismatch", f"get_placed_tasks {o[1]}, reference {sorted(ref)}")
+        for k2, s_ in enumerate(sorted(STRATS)):
+            dem, bs, batch = STRATS[s_]
+            members = [t for t, s2 in ref.items() if s2 == s_]
+            fit = True if (batch and members) else all(
+                wk.resources.get_available_quantity(world.Resource(n, i)) >= q
+                for (n, i), q in dem.items())
+            if o[2][k2] != fit:
+                bad("can_accomodate", f"{wn}: can_accomodate_strategy({s_})={o[2][k2]}, "
+                                      f"reference {fit} (members {members})")
+
+    def build(hist, bad=None):
+        world, wk, ref = fresh()
+        sink = bad or (lambda *a, **k: None)
+        for op in hist:
+            apply(world, wk, ref, op, sink)
+        return world, wk, ref
+
+    def enabled(ref):
+        ops = []
+        for t in TASK_STRATS:
+            if t in ref:
+                ops.append(("wremove", t))
+            else:
+                for s_ in TASK_STRATS[t]:
+                    ops.append(("wplace", t, s_))
+        return ops
+
+    world, wk, ref = build(())
+    seen = {(observe(world, wk), ())}
+    frontier = [()]
+    transitions = 0
+    for d in range(depth):
+        nxt = []
+        for hist in frontier:
+            _w, _k3, ref = build(hist)
+            for op in enabled(ref):
+                h2 = hist + (op,)
+
+                def bad(rule, msg, h2=h2):
+                    if len(out) < 25:
+                        out.append({"rule": rule, "msg": f"worker {wn} history "
+                                    f"{list(h2)}: {msg}",
+                                    "case": {"worker_history": [list(o) for o in h2],
+                                             "worker": wn}})
+                w2, k2, r2 = build(hist)
+                apply(w2, k2, r2, op, bad)
+                transitions += 1
+                # the refusal itself is part of the state: it may have left something
+                # behind that only a later operation reveals, so histories ending in a
+                # refusal are extended too (bounded by the depth)
+                key = (observe(w2, k2), tuple(sorted(r2.items())),
+                       op if observe(w2, k2) == observe(*build(hist)[:2]) else None)
+                if key not in seen:
+                    seen.add(key)
+                    nxt.append(h2)
+                    w3, k3, r3 = build(h2)
+                    try:
+                        for t in list(r3):
+                            k3.remove_task(w3.ET(0, w3.ET.Unit.US), w3.tasks[t])
+                    except Exception as e:  # noqa: B902
+                        bad("drain.raises", f"removing everything raised "
+                                            f"{type(e).__name__}")
+                    else:
+                        for n, i, q in WORKERS[wn]:
+                            av = k3.resources.get_available_quantity(w3.Resource(n, i))
+                            if av != q:
+                                bad("drain.not_restored", f"{n}:{i}: {av} of {q} after "
+                                                          f"removing everything")
+        frontier = nxt
+    return {"states": len(seen), "transitions": transitions, "validated": transitions,
+            "evaluations": transitions, "stats": stats, "violations": out,
+            "distinct": [hash(k) for k in seen],
+            "samples": [{"bare_worker": wn, "depth": depth, "states": len(seen)}]}
+
+
 # ----------------------------------------------------------------------- Resources
 def resources_job(item, tier):
     """BFS on a bare Resources object: allocate / allocate_multiple / deallocate /
@@ -494,6 +673,10 @@ def resources_job(item, tier):
         "ca": {("CPU", "a"): 1}, "g1": {("GPU", "any"): 1},
         "mx": {("CPU", "any"): 1, ("GPU", "any"): 1},
         "m2": {("CPU", "any"): 2, ("GPU", "any"): 2},
+        # unequal amounts of two types, in both listing orders (the request is a dict:
+        # the order of its entries is an input dimension)
+        "m21": {("CPU", "any"): 2, ("GPU", "any"): 1},
+        "m12": {("GPU", "any"): 1, ("CPU", "any"): 2},
         "ax": {("CPU", "a"): 1, ("GPU", "any"): 1},
         # one specific id *and* an 'any' unit of the same type in one request
         "am": {("CPU", "any"): 1, ("CPU", "a"): 1},
@@ -673,6 +856,8 @@ def job(item, tier):
         return bfs_job(item, tier)
     if item[0] == "resources":
         return resources_job(item, tier)
+    if item[0] == "worker":
+        return worker_job(item, tier)
     if item[0] == "case":
         return case_job(item[1], tier)
 
@@ -692,6 +877,9 @@ def case_job(case, tier):
         for tg in range(len(w.pools)):
             check_against_reference(w, tg, r[tg], bad, hist)
         drain_check(hist, bad)
+    elif "worker_history" in case:
+        r = worker_job(("worker", case["worker"], len(case["worker_history"])), tier)
+        out = r["violations"]
     elif "res_history" in case:
         r = resources_job(("resources", len(case["res_history"]),
                            case.get("fixture", "a1b1g1")), tier)
@@ -734,6 +922,8 @@ def items(tier):
     bf += [("copy",), ("deepcopy",)]
     for f in bf:
         it.append(("bfs", "batch", [list(f)], batch_depth))
+    for wn in WORKERS:
+        it.append(("worker", wn, 4 if tier == "quick" else 5))
     it.append(("resources", 4 if tier == "quick" else 5, "a1b1g1"))
     it.append(("resources", 4 if tier == "quick" else 5, "a2b1g1"))
     return it
@@ -744,7 +934,8 @@ def main(tier, seed):
         "C04", tier, seed, items(tier), job, extra=(tier,), engine="e2",
         rule="BFS over all operation histories (place / place-in-batch / remove / load / "
              "evict / step / copy / deepcopy on a 2-worker pool with several ids of one "
-             "type; allocate / allocate_multiple / deallocate / copy on bare Resources) "
+             "type; place / remove on a bare Worker without the pool's admission test; "
+             "allocate / allocate_multiple / deallocate / copy on bare Resources) "
              "to the stated depth, partitioned on the first operation; states "
              "de-duplicated on all public getter values",
         assumptions=["an `any` request may be served from any id: comparison is on "
@@ -753,7 +944,8 @@ def main(tier, seed):
                      "full alphabet depth %d, batch-only alphabet depth %d" %
                      ((4, 6) if tier == "quick" else (5, 8))],
         required_stats=("refusals", "accepted_places", "copies", "batch_places",
-                        "res_refusals"), chunk=1,
+                        "res_refusals", "worker_refusals", "worker_accepts",
+                        "worker_batch_joins"), chunk=1,
         budget_s=280 if tier == "quick" else 3000, confirm_job=confirm_job)
 
 
